@@ -662,14 +662,15 @@ class Interp:
 
     # -- forms -------------------------------------------------------------------------------------
     def leaves(self, o, acc_args, acc_coefs, seen):
-        from ufl.argument import Argument
+        from ufl.argument import Argument, Coargument
         from ufl.coefficient import BaseCoefficient
         from ufl.core.expr import Expr
 
         if id(o) in seen:
             return
         seen.add(id(o))
-        if isinstance(o, Argument):
+        if isinstance(o, Argument | Coargument):
+            # (a Coargument occurs as the direction of a derivative w.r.t. a Cofunction)
             acc_args.append(o)
         elif isinstance(o, BaseCoefficient) and isinstance(o, Expr):
             acc_coefs.append(o)
@@ -762,6 +763,9 @@ class Interp:
             if len(coeffs.ufl_operands) != 1 or len(cd.ufl_operands) != 0:
                 raise ModelGap("derivative w.r.t. several coefficients")
             v = coeffs.ufl_operands[0]
+            if isinstance(v, C.Cofunction):
+                # a scalar integrand cannot contain a Cofunction: its derivative w.r.t. one vanishes
+                return mul(arr(0), self.pw(g, q, env, ax))
             if not isinstance(v, C.Coefficient):
                 raise ModelGap("integrand derivative w.r.t. a non-Coefficient")
             var = self.coef_name(v)
